@@ -183,9 +183,9 @@ type Summary struct {
 	pts    map[string]locset
 	copies map[copyEdge]bool
 	rets   []locset
-	// stores of values into caller-visible locations, with the static type of
-	// the stored value (for alias rules)
-	size int
+	// static types of the values whose storing created each points-to edge
+	edgeTyp map[string]map[string]bool
+	size    int
 }
 
 func (s *Summary) measure() int {
@@ -229,6 +229,8 @@ type fnState struct {
 	siteID map[ssa.Value]string
 	nsite  int
 	chg    bool
+	// static types of the values whose storing created a points-to edge
+	edgeTyp map[string]map[string]bool // "loc\x00target" -> type strings
 }
 
 func isReflectValue(t types.Type) bool {
@@ -347,7 +349,7 @@ func newHeap(p *Prog) *Heap {
 
 func (h *Heap) analyse(f *ssa.Function, mask string) *fnState {
 	st := &fnState{h: h, fn: f, val: map[ssa.Value]locset{}, tuple: map[ssa.Value][]locset{},
-		pts: map[string]locset{}, copies: map[copyEdge]bool{}, mods: map[string]Mod{}, siteID: map[ssa.Value]string{}}
+		pts: map[string]locset{}, copies: map[copyEdge]bool{}, mods: map[string]Mod{}, siteID: map[ssa.Value]string{}, edgeTyp: map[string]map[string]bool{}}
 	for i, prm := range f.Params {
 		if holdsRefs(prm.Type()) {
 			name := fmt.Sprintf("P%d", i)
@@ -404,6 +406,9 @@ func (st *fnState) get(v ssa.Value) locset {
 func (st *fnState) set(v ssa.Value, s locset) {
 	if len(s) == 0 {
 		return
+	}
+	if _, isTuple := v.Type().(*types.Tuple); !isTuple && !holdsRefs(v.Type()) {
+		return // strings, numbers, booleans, time.Time: nothing to alias
 	}
 	cur := st.val[v]
 	if cur == nil {
@@ -606,10 +611,12 @@ func (st *fnState) transfer(ins ssa.Instruction) {
 	case *ssa.Store:
 		addrs := st.get(x.Addr)
 		st.store(addrs, x.Val.Type(), st.get(x.Val))
+		st.noteTypes(addrs, x.Val)
 		st.recordWrite(addrs, "store", x, storeType(x.Addr))
 	case *ssa.MapUpdate:
 		el := elemOf(st.get(x.Map))
 		st.store(el, x.Value.Type(), st.get(x.Value))
+		st.noteTypes(el, x.Value)
 		st.recordWrite(el, "mapupdate", x, x.Map.Type())
 	case *ssa.Send:
 		el := elemOf(st.get(x.Chan))
@@ -634,6 +641,9 @@ func (st *fnState) transfer(ins ssa.Instruction) {
 			st.set(x, st.get(x.X))
 		}
 	case *ssa.TypeAssert:
+		if !holdsRefs(x.AssertedType) {
+			break
+		}
 		if x.CommaOk {
 			st.setTuple(x, 0, st.get(x.X))
 		} else {
@@ -972,7 +982,23 @@ func (st *fnState) instantiate(c ssa.CallInstruction, g *ssa.Function, sum *Summ
 	for l, ts := range sum.pts {
 		targets := locset{}
 		for t := range ts {
-			targets.addAll(st.rename(c, t, act, id))
+			rt := st.rename(c, t, act, id)
+			targets.addAll(rt)
+			if m, ok := sum.edgeTyp[l+"\x00"+t]; ok {
+				for l2 := range st.rename(c, l, act, id) {
+					for t2 := range rt {
+						k := untag(l2) + "\x00" + untag(t2)
+						mm := st.edgeTyp[k]
+						if mm == nil {
+							mm = map[string]bool{}
+							st.edgeTyp[k] = mm
+						}
+						for x := range m {
+							mm[x] = true
+						}
+					}
+				}
+			}
 		}
 		for l2 := range st.rename(c, l, act, id) {
 			st.addPts(l2, targets)
@@ -1112,11 +1138,17 @@ func (st *fnState) summarise() *Summary {
 			}
 		}
 	}
+	s.edgeTyp = map[string]map[string]bool{}
 	for l, ts := range st.pts {
 		if reach[rootOf(l)] {
 			c := locset{}
 			c.addAll(ts)
 			s.pts[l] = c
+			for t := range ts {
+				if m, ok := st.edgeTyp[l+"\x00"+t]; ok {
+					s.edgeTyp[l+"\x00"+t] = m
+				}
+			}
 		}
 	}
 	for e := range st.copies {
@@ -1216,4 +1248,75 @@ func storeType(addr ssa.Value) string {
 		return "elem " + typeStr(a.X.Type())
 	}
 	return "*" + typeStr(deref(addr.Type()))
+}
+
+// staticTypesOf: the static types a value may have been boxed from.
+func staticTypesOf(v ssa.Value) []string {
+	set := map[string]bool{}
+	seen := map[ssa.Value]bool{}
+	var walk func(v ssa.Value)
+	walk = func(v ssa.Value) {
+		if v == nil || seen[v] {
+			return
+		}
+		seen[v] = true
+		switch x := v.(type) {
+		case *ssa.MakeInterface:
+			walk(x.X)
+		case *ssa.ChangeInterface:
+			walk(x.X)
+		case *ssa.Phi:
+			for _, e := range x.Edges {
+				walk(e)
+			}
+		case *ssa.Const:
+			if x.Value == nil {
+				return // nil has no referent
+			}
+			set[fmtTypeString(v.Type())] = true
+		default:
+			set[fmtTypeString(v.Type())] = true
+		}
+	}
+	walk(v)
+	var out []string
+	for t := range set {
+		out = append(out, t)
+	}
+	sort.Strings(out)
+	return out
+}
+
+func (st *fnState) noteTypes(addrs locset, v ssa.Value) {
+	if !holdsRefs(v.Type()) || aggregate(v.Type()) {
+		return
+	}
+	ts := staticTypesOf(v)
+	targets := st.get(v)
+	for a := range addrs {
+		a = untag(a)
+		for t := range targets {
+			k := a + "\x00" + untag(t)
+			m := st.edgeTyp[k]
+			if m == nil {
+				m = map[string]bool{}
+				st.edgeTyp[k] = m
+			}
+			for _, x := range ts {
+				m[x] = true
+			}
+		}
+	}
+}
+
+// EdgeTypes returns the static types recorded for the edge loc -> target in
+// the summary of f ("" when the edge came from a struct copy or a callee).
+func (s *Summary) EdgeTypes(loc, target string) []string {
+	m := s.edgeTyp[loc+"\x00"+target]
+	var out []string
+	for t := range m {
+		out = append(out, t)
+	}
+	sort.Strings(out)
+	return out
 }
